@@ -191,7 +191,7 @@ def c11_varint_inputs(arg):
             if ref[0] == "ok":
                 ok = got[0] == "ok" and got[1] == ref[1] and got[2] == ref[2]
             elif ref[0] == "underflow":
-                ok = got[0] == "exc" and type(got[1]) is BufferUnderflow
+                ok = got[0] == "exc" and isinstance(got[1], BufferUnderflow)
             else:
                 ok = got[0] == "exc" and isinstance(got[1], ValueError)
             if not ok:
@@ -221,7 +221,7 @@ def c11_varint_long(_):
         if ref[0] == "ok":
             ok = got[0] == "ok" and got[1] == ref[1] and got[2] == ref[2]
         elif ref[0] == "underflow":
-            ok = got[0] == "exc" and type(got[1]) is BufferUnderflow
+            ok = got[0] == "exc" and isinstance(got[1], BufferUnderflow)
         else:
             ok = got[0] == "exc" and isinstance(got[1], ValueError)
         if not ok:
@@ -291,7 +291,7 @@ def c11_lengths(_):
                      ("read_legacy_string", b"\xff\xff"), ("read_legacy_bytes", b"\xff\xff\xff\xff")):
         acc.add("evaluations")
         got = rd(getattr(r, rn), data)
-        if got[0] != "exc" or type(got[1]) is not UnexpectedNull:
+        if got[0] != "exc" or not isinstance(got[1], UnexpectedNull):
             bad(acc, "length-prefixed", f"{rn}/null-form-not-rejected", rn, {"bytes": data}, "UnexpectedNull", repr(got[1:])[:100], (n,))
     # length-limited writers: out of domain raises and writes nothing
     for name_w, value in (("write_legacy_string", "a" * 32768), ("write_nullable_legacy_string", "a" * 32768),
